@@ -17,7 +17,7 @@ CONFIG = {
     "level_note": ("verify -pl = 0 is only demanded when no recorded file is missing or ignored, no unrecorded file exists and "
                    "every file holds its first recorded content."),
     "technique": "deterministic simulation: seeded flat histories with failures; packing-list model + verify -pl under a content fault",
-    "quick": {"runs": 960, "budget_s": 90},
+    "quick": {"runs": 1200, "budget_s": 120},
     "thorough": {"runs": 5000, "budget_s": 540},
     "rule": ("one run = flat history + flatten + verify -pl before/after a fault; one evaluation = one judged command. "
              "Distinct = (#generations, #paths, #formats overall, has failed entries, has -sf generation, has late file, "
